@@ -42,6 +42,8 @@ Threshold_Watcher<Traits>
   typename Traits::Threshold threshold;
   Traits::from_delta(threshold, delta);
   if (!Traits::less_than(Traits::get(), threshold)) {
+    // Do not leak the handler allocated by the member initializer.
+    delete &handler;
     throw std::invalid_argument("Threshold_Watcher constructor called with a"
                                 " threshold already reached");
   }
@@ -57,6 +59,8 @@ Threshold_Watcher<Traits>
   typename Traits::Threshold threshold;
   Traits::from_delta(threshold, delta);
   if (!Traits::less_than(Traits::get(), threshold)) {
+    // Do not leak the handler allocated by the member initializer.
+    delete &handler;
     throw std::invalid_argument("Threshold_Watcher constructor called with a"
                                 " threshold already reached");
   }
